@@ -8,8 +8,10 @@ SIZES = {"quick": 500, "thorough": 16000}
 BATCH = 2000
 RULE = ("histories over 1-4 resources with 0-3 isolation rules each (thresholds from {0,1,2,3,5,small,2^31-1,2^31,2^32-2,2^32-1}), "
         "entries with batches aimed at the admission boundary (N-inflight, N-inflight+1), 0, 1, 2^31, 2^32-1 and the uint32 wrap region "
-        "(2^32-inflight .. 2^32-1), exits in random order incl. double exits and exits of blocked/unknown ids, gauge reads, rule reloads "
-        "mid-history, and schedule ops (par/sched: 1-6 goroutines parked at chain.between-check-and-stat, random interleavings of "
+        "(2^32-inflight .. 2^32-1), a quarter of the entries without any batch option (default 1), resource types varied per entry, exits in "
+        "random order incl. Exit(WithError), TraceError before/after exit, double exits, two goroutines exiting one entry at once (dexit), "
+        "exits of blocked/unknown ids, gauge reads, rule reloads mid-history with live entries (append a stricter/looser rule, remove, "
+        "reorder, change, same, fresh), and schedule ops (par/sched: 1-6 goroutines parked at chain.between-check-and-stat, random interleavings of "
         "check/record/exit steps); non-trivial = at least one pass, one isolation block and one exit that is not of the newest live entry; "
         "distinct by (rules, op-kind/boundary-class sequence); plus every short schedule over 2-4 threads, and soak cases (2-16 real "
         "goroutines x 500-10000 Entry/Exit rounds, GOMAXPROCS=NumCPU, no hooks) judged by gauge-returns / N+(G-1) / no-rejection-with-"
@@ -51,11 +53,48 @@ def gen_rules(rng, sim, ops):
             t = rng.choice(THR_SMALL) if x < 0.72 else (rng.randint(1, 12) if x < 0.82 else rng.choice(THR_EDGE))
             toks.append((r, t))
     rng.shuffle(toks)           # rules of different resources interleaved in the load list
+    set_rules(sim, ops, toks)
+
+
+def set_rules(sim, ops, toks):
+    toks = [(r, min(max(t, 0), U32 - 1)) for r, t in toks]
+    sim.toks = list(toks)
     sim.rules = {}
     for r, t in toks:
         if t != 0:
             sim.rules.setdefault(r, []).append(t)
     ops.append("load" + "".join(f" {r}:{t}" for r, t in toks))
+
+
+def reload_rules(rng, sim, ops, cls):
+    """reload shapes while entries are live: the latest list is the one the cap is judged against"""
+    toks = list(getattr(sim, "toks", []))
+    shape = rng.choice(["append-stricter", "append-stricter", "append-looser", "append-other", "remove", "remove-last", "reorder",
+                        "change", "fresh", "same"]) if toks else "fresh"
+    withrules = sorted(sim.rules) or RES[:1]
+    if shape == "append-stricter":          # the old list stays a proper prefix of the new one
+        r = rng.choice(withrules)
+        lo = min(sim.rules.get(r, [3]))
+        toks.append((r, max(1, min(lo - rng.choice([1, 1, 2]), max(sim.infl(r), 1)))))
+    elif shape == "append-looser":
+        r = rng.choice(withrules)
+        toks.append((r, min(sim.rules.get(r, [3])) + rng.choice([1, 2, 5])))
+    elif shape == "append-other":
+        toks.append((rng.choice(RES), rng.choice(THR_SMALL)))
+    elif shape == "remove":
+        del toks[rng.randrange(len(toks))]
+    elif shape == "remove-last":
+        toks.pop()
+    elif shape == "reorder":
+        rng.shuffle(toks)
+    elif shape == "change":
+        i = rng.randrange(len(toks))
+        toks[i] = (toks[i][0], max(1, toks[i][1] + rng.choice([-1, 1, -2])) if toks[i][1] < 100 else rng.choice(THR_SMALL))
+    elif shape == "fresh":
+        cls.append("reload-fresh")
+        return gen_rules(rng, sim, ops)
+    cls.append("reload-" + shape)
+    set_rules(sim, ops, toks)
 
 
 def pick_batch(rng, sim, res, cls):
@@ -107,7 +146,12 @@ def gen_case(rng, cid):
                 continue
             b = pick_batch(rng, sim, res, cls)
             ty = f" type={rng.choice(TYPES)}" if rng.random() < 0.3 else ""
-            ops.append(f"entry {i} {res} {b}{ty}")
+            if rng.random() < 0.25:
+                b = 1                       # no WithBatchCount option at all: the default batch is 1
+                cls[-1] = "default"
+                ops.append(f"entry {i} {res} -{ty}")
+            else:
+                ops.append(f"entry {i} {res} {b}{ty}")
             if sim.admit(res, b):
                 sim.live[i] = res
             else:
@@ -155,7 +199,7 @@ def gen_case(rng, cid):
                 for j in range(k):
                     sim.live[id0 + j] = res
             cls.append(f"par{k}")
-        elif x < 0.97:
+        elif x < 0.945:
             m = rng.choice([1, 2, 2, 3, 3, 4, 5])
             bs = [pick_batch(rng, sim, res, cls) for _ in range(m)]
             if rng.random() < 0.6:
@@ -173,8 +217,7 @@ def gen_case(rng, cid):
                 if rng.random() < 0.5:
                     sim.live[id0 + j] = res
         else:
-            gen_rules(rng, sim, ops)
-            cls.append("reload")
+            reload_rules(rng, sim, ops, cls)
     for r in pool:
         ops.append(f"conc {r}")
     return Case(cid, ops, tags=tuple(cls[:12]))
@@ -309,6 +352,26 @@ def soak_cases(rng, tier, tag):
     return cases
 
 
+def manyres_cases(rng, tier, tag):
+    """resources first entered around / beyond base.DefaultMaxResourceAmount (10000) are still tracked and capped"""
+    cases = []
+    for k in range(0 if tier == "quick" else 8):        # quick: corpus/C04/manyres.ops only
+        n = 10000 + rng.choice([-3, -2, -1, 0, 1, 2, 50])
+        N = rng.choice([1, 2, 3])
+        ops = [f"load p:{N} q:{N} r:{N + 1}", f"manyres {n}"]
+        i = 1
+        for r in ("p", "q", "r"):
+            for _ in range(N + 2):
+                ops.append(f"entry {i} {r} {rng.choice(['1', '-', '1', '0'])}")
+                i += 1
+            ops.append(f"conc {r}")
+            if r == "p":
+                ops.append("manyres 2")
+        ops += ["exit 1", "exit 2", f"entry {i} p 1", "conc p"]
+        cases.append(Case(f"{tag}-{k}", ops, tags=("manyres", f"n={n}")))
+    return cases
+
+
 def run(ctx):
     from vlib import std
     import sys
@@ -326,6 +389,11 @@ def run(ctx):
             eng.check(sk, "soak")
             ctx.cov["soak_cases"] = len(sk)
             ctx.log(f"{len(sk)} soak cases (real goroutines) judged against the bounds")
+        if not ctx.violations:
+            mr = manyres_cases(ctx.rng, ctx.tier, f"m{ctx.seed}")
+            if mr:
+                eng.check(mr, "manyres")
+            ctx.cov["manyres_cases"] = len(mr) + 1     # + corpus/C04/manyres.ops
 
     ctx.assumptions.append("fewer than 2^31 entries in flight per resource: the gauge is an int32 in core/stat/base_node.go and an integer in the model "
                            "(hypothesis histSize h < 2^31 of the history theorems)")
